@@ -1068,13 +1068,16 @@ def rule_options(ctx):
     caller passes reach the dynamic programme as given.  In the optimal finders of the processor the parameters
     `search_outer` and `minimize` are never re-bound (the documented widening of `cost_cap` is the only option that
     changes); every delegate call hands them on unchanged."""
-    r = RuleResult("C09-OPTIONS", "the caller's objective and outer-product option reach the DP as given", 3)
+    r = RuleResult("C09-OPTIONS", "the caller's network, objective and outer-product option reach the DP as given", 6)
     cp = ctx.p.cls(C.BASIC, "ContractionProcessor")
     funcs = [cp.methods.get("optimize_optimal_connected"), cp.methods.get("optimize_optimal"), ctx.p.func(C.BASIC, "optimize_optimal")]
     C.require(all(f is not None for f in funcs), "optimal finders not found")
     for f in funcs:
         params = [a.arg for a in f.node.args.posonlyargs + f.node.args.args + f.node.args.kwonlyargs]
-        for opt in ("search_outer", "minimize"):
+        # (seed C09_9) the module-level finder also hands the *network* on as given: an index of size 1 multiplies no cost
+        # but still connects tensors — stripping it changes which trees are searched
+        net = ("inputs", "output", "size_dict") if f.cls is None else ()
+        for opt in ("search_outer", "minimize") + net:
             if opt not in params:
                 continue
             k = ctx.key(f, "C09-OPTIONS", opt)
@@ -1095,6 +1098,12 @@ def rule_options(ctx):
                             if opt == "minimize" and isinstance(n, ast.Assign) and val is not None and \
                                     any(isinstance(x, ast.Name) and x.id == opt for x in ast.walk(val)) and not C.enclosing_ifs(f, n):
                                 continue
+                            # a container-type conversion of the network (`inputs = tuple(map(tuple, inputs))`) keeps it
+                            if opt in net and isinstance(n, ast.Assign) and val is not None and \
+                                    any(isinstance(x, ast.Name) and x.id == opt for x in ast.walk(val)) and \
+                                    not any(isinstance(x, (ast.Compare, ast.IfExp, ast.BinOp, ast.Subscript)) or
+                                            (isinstance(x, ast.comprehension) and x.ifs) for x in ast.walk(val)):
+                                continue
                             rebinds.append(n)
             # delegates receive the option itself
             passed_bad = None
@@ -1104,9 +1113,11 @@ def rule_options(ctx):
                         passed_bad = kw
             if rebinds:
                 g = [C.unparse(i_.test, 60) for i_, t in C.enclosing_ifs(f, rebinds[0])]
+                what = "the network is altered before the search — the path is optimal for another network (fewer connections, " \
+                       "other components)" if opt in net else \
+                       "the result is optimal for another question (e.g. over outer-product-free trees only although outer products were asked for)"
                 r.violation(k, C.loc(f, rebinds[0]), f"`{C.unparse(rebinds[0], 60)}`" + (f" under `{g[0]}`" if g else "") +
-                            f": the caller's `{opt}` is replaced before the search — the result is optimal for another question "
-                            "(e.g. over outer-product-free trees only although outer products were asked for)")
+                            f": the caller's `{opt}` is replaced before the search — {what}")
             elif passed_bad is not None:
                 r.violation(k, C.loc(f, passed_bad.value), f"`{opt}={C.unparse(passed_bad.value, 50)}` handed to a delegate instead of the caller's value")
             else:
